@@ -79,4 +79,63 @@ def renormFunctional (fast : Bool) (seq : List α) : List α :=
     | l => l
   | _ => compact A (renormFunctionalRaw A fast seq)
 
+/-! ### products of expansions (apmath.multiply / apmath.square before the final renormalisation)
+
+`tp` is the error-free product `two_prod` (Dekker): it returns (hi, lo). -/
+
+/-- one index of a diagonal of `apmath.multiply` -/
+def mulStep (tp : α → α → α × α) (seq1 seq2 : List α) (n : Nat) (acc : List α × List α) (i1 : Nat) : List α × List α :=
+  if i1 ≤ n ∧ n - i1 < seq2.length then
+    match seq1[i1]?, seq2[n - i1]? with
+    | some a, some b => let pe := tp a b; (acc.1 ++ [pe.1], acc.2 ++ [pe.2])
+    | _, _ => acc
+  else acc
+
+/-- diagonal `n` of `apmath.multiply`: the pairs (i1, n − i1) with i1 < len seq1 and 0 ≤ n − i1 < len seq2, in the order of i1;
+returns (p_lst, ne_lst) -/
+def mulDiag (tp : α → α → α × α) (seq1 seq2 : List α) (n : Nat) : List α × List α :=
+  (List.range seq1.length).foldl (mulStep tp seq1 seq2 n) ([], [])
+
+/-- one index of a diagonal of `apmath.square`; off-diagonal products are doubled -/
+def squareStep (tp : α → α → α × α) (seq : List α) (n : Nat) (acc : List α × List α) (i1 : Nat) : List α × List α :=
+  if i1 ≤ n ∧ i1 ≤ n - i1 ∧ n - i1 < seq.length then
+    match seq[i1]?, seq[n - i1]? with
+    | some a, some b =>
+      let pe := tp a b
+      if i1 < n - i1 then (acc.1 ++ [A.add pe.1 pe.1], acc.2 ++ [A.add pe.2 pe.2]) else (acc.1 ++ [pe.1], acc.2 ++ [pe.2])
+    | _, _ => acc
+  else acc
+
+/-- diagonal `n` of `apmath.square`: the pairs i1 ≤ i2 = n − i1 < len seq -/
+def squareDiag (tp : α → α → α × α) (seq : List α) (n : Nat) : List α × List α :=
+  (List.range seq.length).foldl (squareStep A tp seq n) ([], [])
+
+/-- the accumulation loop shared by `multiply` and `square`: for each diagonal, `lst = vecsum(p_lst + e_lst)`,
+`r_lst.append(lst[0])`, `e_lst = lst[1:] + ne_lst` -/
+def accumulate (fast : Bool) (diag : Nat → List α × List α) : List Nat → List α × List α → List α × List α
+  | [], st => st
+  | n :: ns, (r_lst, e_lst) =>
+    let d := diag n
+    match vecsum A fast (d.1 ++ e_lst) with
+    | [] => accumulate fast diag ns (r_lst, e_lst)     -- unreachable in the real code (IndexError)
+    | s :: es => accumulate fast diag ns (r_lst ++ [s], es ++ d.2)
+
+/-- `apmath.multiply(seq1, seq2)` up to (excluding) the final `renormalize`; both operands non-empty -/
+def mulRaw (tp : α → α → α × α) (fast : Bool) (seq1 seq2 : List α) : List α :=
+  match seq1, seq2 with
+  | a :: _, b :: _ =>
+    let pe := tp a b
+    let st := accumulate A fast (mulDiag tp seq1 seq2) ((List.range (seq1.length + seq2.length)).drop 1) ([pe.1], [pe.2])
+    st.1 ++ st.2
+  | _, _ => []
+
+/-- `apmath.square(seq)` up to (excluding) the final `renormalize` -/
+def squareRaw (tp : α → α → α × α) (fast : Bool) (seq : List α) : List α :=
+  match seq with
+  | a :: _ =>
+    let pe := tp a a
+    let st := accumulate A fast (squareDiag A tp seq) ((List.range (seq.length * 2)).drop 1) ([pe.1], [pe.2])
+    st.1 ++ st.2
+  | [] => []
+
 end FAVerif.Renorm
